@@ -33,3 +33,14 @@ chk("C05", "exploration",
     "Trusted: dimension vectors read from unyt's sympy expressions as data; must-equal/must-differ thresholds 1e-12/1e-6; "
     "float under/overflow of intermediates excluded by a magnitude budget.",
     "exhaustive pair enumeration + Hypothesis algebraic-law testing against a (scale, dimvec) model", "DESIGN.md §3 C05")
+chk("C01", "exploration",
+    "Enumeration of the operation x operand-kind x dimension-pair x shape matrix (~190 forms: every same-dimension ufunc in "
+    "call/outer/out=/.at forms, operators and in-place operators, 35 value-merging array functions, item assignment, "
+    "conversion routes, Unit+Unit) with the dimension of every operand taken from an independent table; each cell is "
+    "judged 'must raise and leave numbers+units of all operands unchanged' or the documented ==/!= answer. A control "
+    "population of same-dimension cells guards against an everything-raises tree. quick samples dimension pairs under "
+    "VERIF_SEED, thorough enumerates all representative pairs and all atomic-symbol pairs.",
+    "Trusted: vf/oracle/table.py dimension vectors. Unjudged by design (pinned by the existing tests): bare Python numbers "
+    "in array-function handlers/item assignment, a[i]=dimensionless quantity, ==/!= and isclose against a dimensionless "
+    "operand, CGS<->SI EM counterpart conversions.",
+    "matrix enumeration with independent dimension oracle and operand snapshots", "DESIGN.md §3 C01")
